@@ -23,7 +23,7 @@ from typing import Any, Dict, List, Optional, Tuple
 from automata.base.exceptions import AutomatonException
 from automata.fa.dfa import DFA
 
-from harness.common import Ctx, InfraError, Names, Toks, dfa_canon, toks
+from harness.common import Ctx, InfraError, Names, Toks, dfa_canon, nfa_iso, toks
 
 LEVEL = "proof"
 DRV = "drv_dfa_ctor"
@@ -517,6 +517,19 @@ def describe(case: dict) -> str:
     return f"DFA.{c}({', '.join(f'{k}={v!r}' for k, v in args.items())})"
 
 
+def _same_up_to_renaming(a: dict, b: dict) -> bool:
+    try:
+        if a.get("partial") != b.get("partial") or len(a["states"]) > 60:
+            return False
+
+        def as_nfa(p):
+            return dict(states=p["states"], syms=p["syms"], finals=p["finals"], init=p["init"],
+                        trans={q: {x: [t] for x, t in row.items()} for q, row in p["trans"].items()})
+        return nfa_iso(as_nfa(a), as_nfa(b))
+    except Exception:  # noqa: BLE001
+        return False
+
+
 def check_case(ctx: Ctx, case: dict, origin: str, bound: Optional[int] = None) -> None:
     c = case["ctor"]
     res, info = real_call(case)
@@ -550,6 +563,12 @@ def check_case(ctx: Ctx, case: dict, origin: str, bound: Optional[int] = None) -
             pl = real_plain(d, rank)
             impl_view = ("ok", pl)
             same = mod == impl_view
+            if not same and mod[0] == "ok" and _same_up_to_renaming(pl, mod[1]):
+                # the same DFA up to a bijective renaming of its states (e.g. another name for the
+                # added trap state): C15 fixes the language, validity and (where promised) the
+                # number of states of the result, not the names — all invariant under renaming
+                same = True
+                ctx.stat("result_equal_to_model_up_to_state_renaming")
     # --- property on the real result
     fails = evaluate_property(ctx, case, res, bound)
     # --- bookkeeping
